@@ -394,6 +394,11 @@ def r09_7(ctx, rep):
         raise MechanismMissing(R, "the loop over the table of unconnected flow variables was not found")
     cfg = CFG(fn, R)
     for lp in finals:
+        head = {x.id for x in cfg.nodes if x.kind == "iter" and x.ast is lp}
+        w0 = cfg.must_pass(cfg.entry, cfg.exit, head)
+        rep.ob(R, site, "the unconnected flow variables are always looked at", w0 is None,
+               "expand_connectors can return before the loop that gives the unconnected flow variables their `= 0` (`nothing was connected` is "
+               "exactly the case in which all of them are unconnected)", path=cfg.describe(w0) if w0 else "")
         w = iteration_skips(cfg, lp, lambda x: x.kind == "stmt" and any(isinstance(c.func, ast.Attribute) and c.func.attr == "append" and norm(c.func.value).endswith(".equations")
                                                                          for c in calls(x.ast)))
         rep.ob(R, site, "every unconnected flow variable gets its `= 0`", w is None,
